@@ -38,6 +38,10 @@ CHECKS = {
             "Every lattice shape incl. degenerate ones (flat and single-point polygons, zero-length lines, degenerate Rect/Triangle, holes of either winding) and every 1-/2-/3-member GeometryCollection over a 17-leaf alphabet in four nesting shapes, at offsets {0,1.5e8} and scales {1,2}; centroid compared with the exact areal centroid / length-weighted midpoints / point mean under the dominance rule; None iff empty; inside the convex hull.",
             "Trusted: exact integer moments; linear weights in f64 (sqrt). Tolerance 1e-12 at the origin, 1e-6 at offset 1.5e8.",
             "DESIGN.md §4 C06"),
+    "C08": ("E1-grid", "bounded exhaustive enumeration of ordered point sequences vs exact integer monotone-chain hull",
+            "Every ordered sequence of up to 5 (thorough 6) distinct points of the 4x4 lattice and every sequence with repetition of up to 6 points of the 3x3 lattice goes through quick_hull, graham_hull and ConvexHull for MultiPoint/LineString/Polygon, in f64 and i64; the ring must be closed, CCW, strictly convex, have exactly the exact hull's vertex set and contain every input by exact orientation; minimum_rotated_rect must contain all inputs and not exceed the bounding rect.",
+            "Trusted: 20-line integer monotone chain. Order of the input matters for quick-hull's tie-breaking, hence sequences rather than sets. Rounding in the farthest-point search at large coordinates is covered by the ulp-window stage of C03.",
+            "DESIGN.md §4 C08"),
 }
 
 NOT_YET = "check not built yet in this round (planned: bounded exhaustive exploration, see DESIGN.md §4)"
